@@ -54,6 +54,7 @@
   observed by ASan/UBSan on the generated inputs (checks/c15.py), not proved.
 -/
 import Ctrmml.Proofs.PipelineCompose
+import Ctrmml.Proofs.PipelineLink
 import Ctrmml.Properties.C13
 import Ctrmml.Properties.C20
 import Ctrmml.Properties.C08
@@ -240,6 +241,25 @@ example : (match Mds.convertTrack 0 0 [⟨Tables.mds_LPF, 2⟩, ⟨Tables.mds_NO
     clsOf (ferrOut (α := Bytes) { song := { tracks := [] } } (fun _ => .ok []) (.codec .stackEmpty)) = 1 ∧
     clsOf (ferrOut (α := Bytes) { song := { tracks := [] } } (fun _ => .ok []) .headerWrap) = 1 := by
   refine ⟨by decide, by decide, by decide⟩
+
+/-! ### link -/
+
+/-- **The link stage: the header generation always returns, and every `foreign` outcome is one of
+the linker's own errors.**  For every byte string given to mdslink's calls: `get_asm_header` /
+`get_c_header` end (`unique_string` terminates: C10), so the stage is `add_song` followed by
+`get_seq_data`; if it ends outside `ok | inputError` it is because `add_song` or `get_seq_data`
+raised `outOfRange` / `invalidArgument` (std exceptions that escape) or `oob` / `hang` / `divZero`
+— the residual kinds `LinkOK` assumes away for the converter's own files. -/
+theorem C15_link_stage_kinds (mds : Bytes) (k : String) (h : linkStage mds = .foreign k) :
+    ∃ e : Linker.Err, (linkErrOut e : Out Unit) = .foreign k ∧
+      (Linker.runOps [.add (Linker.ascii "in") mds] Linker.Linker.new = .error e ∨
+       ∃ l, Linker.runOps [.add (Linker.ascii "in") mds] Linker.Linker.new = .ok l ∧ Linker.getSeqData l = .error e) :=
+  linkStage_foreign mds k h
+
+/-- non-vacuity: a file that is not a RIFF container is refused with `std::out_of_range` from the
+`RIFF` constructor (8 bytes are needed) — a foreign outcome of the stage on arbitrary bytes, which is
+why `LinkOK` speaks about the converter's files only -/
+example : clsOf (linkStage [1, 2, 3]) = 2 := by decide
 
 /-! ### the composition -/
 
